@@ -43,7 +43,7 @@ pub fn compare(src: &str, expected: Option<&[NTok]>, out: &mut CaseOut)
 		);
 	}
 	let nerr = rt.iter().filter(|t| t.kind.starts_with('E')).count();
-	if nerr > 100
+	if nerr > 100 || d.num_errors >= 100
 	{
 		// delta stops recording after 100 errors (documented cap)
 		at = strip_errors(&at);
